@@ -141,6 +141,11 @@ macro_rules! retire_runner {
           "iter" => {
             let it = CountIter { i: 0, n: prod.args()[0].int(), pulls: pulls.clone() };
             let p: Obs = observable::from_iter(it).on_error_map(absurd as fn(Infallible) -> i64).box_it();
+            // an optional chain between the iterator and its input of the two-input operator: (pre U...)
+            let p = match body.iter().find(|x| matches!(x, Sexp::List(l) if !l.is_empty() && matches!(&l[0], Sexp::Atom(a) if a == "pre"))) {
+              Some(pre) => apply_uops(p, pre.args()),
+              None => p,
+            };
             let (obs, _) = place(p, pos);
             let _sub = apply_uops(obs, ops).actual_subscribe(probe);
             format!("pulls={} {}", pulls.load(Ordering::SeqCst), crate::val::show_trace(&log.take()))
